@@ -252,6 +252,10 @@ def run(cx):
     from props.shared import leave_implies_terminal, heap_order
     leave_implies_terminal(cx, "C07.n")
     heap_order(cx, "C07.o", ["event"])
+    from bits import check_headers
+    check_headers(cx, "C07.p", "C07.q")
+    from props.C17 import is_active_exact
+    is_active_exact(cx, "C07.r")
 
 
 SELFTEST = [
